@@ -8,6 +8,7 @@ import (
 	"io"
 	"net/netip"
 	"sync"
+	"sync/atomic"
 	"time"
 )
 
@@ -340,6 +341,54 @@ func Verif_TV_concurrency_semantics() {
 	wg.Wait()
 	verifObserve("once.ran", ran)
 	verifObserve("mutex.counter", counter)
+	// sync/atomic (functions and typed values), RWMutex, TryLock — not used by corebgp, modelled for changed code
+	var ai atomic.Int64
+	var au uint32
+	var ab atomic.Bool
+	var ap atomic.Pointer[Notification]
+	var rw sync.RWMutex
+	var wg2 sync.WaitGroup
+	shared := 0
+	for g := 0; g < 3; g++ {
+		wg2.Add(1)
+		go func() {
+			defer wg2.Done()
+			for k := 0; k < 4; k++ {
+				ai.Add(2)
+				atomic.AddUint32(&au, 1)
+				rw.Lock()
+				shared++
+				rw.Unlock()
+				rw.RLock()
+				_ = shared
+				rw.RUnlock()
+			}
+			ab.Store(true)
+			ap.CompareAndSwap(nil, &Notification{Code: 9})
+		}()
+	}
+	wg2.Wait()
+	verifObserve("atomic.int64", int(ai.Load()))
+	verifObserve("atomic.uint32", int(atomic.LoadUint32(&au)))
+	verifObserve("atomic.bool", ab.Load())
+	verifObserve("atomic.pointer", ap.Load() != nil && ap.Load().Code == 9)
+	verifObserve("atomic.cas-miss", atomic.CompareAndSwapUint32(&au, 5, 6))
+	verifObserve("atomic.cas-hit", atomic.CompareAndSwapUint32(&au, 12, 40))
+	verifObserve("atomic.swap", int(atomic.SwapUint32(&au, 1))+int(au))
+	verifObserve("rwmutex.shared", shared)
+	var tl sync.Mutex
+	verifObserve("trylock.free", tl.TryLock())
+	verifObserve("trylock.held", tl.TryLock())
+	tl.Unlock()
+	// time.Time arithmetic on values from time.Now()
+	t0 := time.Now()
+	verifObserve("time.zero-iszero", time.Time{}.IsZero())
+	verifObserve("time.now-iszero", t0.IsZero())
+	verifObserve("time.add-after", t0.Add(time.Second).After(t0))
+	verifObserve("time.add0-after", t0.Add(0).After(t0))
+	verifObserve("time.before", t0.Before(t0.Add(time.Minute)))
+	verifObserve("time.sub", int(t0.Add(3*time.Second).Sub(t0)))
+	verifObserve("time.equal", t0.Add(0).Equal(t0))
 	// timers (pre-1.23 channel semantics of this module)
 	tm := time.NewTimer(0)
 	<-tm.C
